@@ -199,7 +199,7 @@ def check(ctx):
                 if got != (ax, fr, to):
                     problems.append(f"axis {ax}: signature {s[2].attrs.get('text') if isinstance(s[2], Obj) else s[2]!r} selected, expected ({ax}:{fr})->({ax}:{to})")
                 exp_kw = kwargs if kwargs is not None else {"boundary": Sym("USER_BOUNDARY"), "fill_value": Sym("USER_FILL")}
-                if s[3] != exp_kw:
+                if s[3] != exp_kw and not (isinstance(s[3], dict) and set(s[3]) == set(exp_kw) and all(_same_opt(P, k, s[3][k], v, steps) for k, v in exp_kw.items())):
                     problems.append(f"axis {ax}: keyword arguments {s[3]!r} reach the selection instead of the caller's")
                 _, uf, grid, data, kw, _n = u
                 if grid is not o.env.get("self"):
@@ -216,7 +216,7 @@ def check(ctx):
                 if kw.get("axis") != [(Sym(ax),)]:
                     problems.append(f"axis {ax}: axis argument {kw.get('axis')!r}")
                 for k, v in exp_kw.items():
-                    if kw.get(k) != v:
+                    if kw.get(k) != v and not _same_opt(P, k, kw.get(k), v, steps):
                         problems.append(f"axis {ax}: caller's {k} does not reach the ufunc call")
                 if kw.get("keep_coords") != Sym("USER_KEEP"):
                     problems.append(f"axis {ax}: caller's keep_coords does not reach the ufunc call")
@@ -408,6 +408,13 @@ def _check_select(ctx, P, entries, prefixes):
 
 
 # ------------------------------------------------------------------ Axis.__init__ default shifts
+def _same_opt(P, k, arrived, wanted, steps):
+    """The caller's option itself, or a spelling pad() resolves to the same rule / fill value in force (sa.props.c02.same_option)."""
+    from .c02 import same_option
+
+    return same_option(P, k, arrived, wanted, tuple(dict.fromkeys(a for a, _f, _t in steps)))
+
+
 def run_axis_init(P, positions, default_shifts=None, boundary=None, fill_value=None, bad_dim=False):
     fi = P.func("axis:Axis.__init__")
     ev = Evaluator(P)
